@@ -32,6 +32,7 @@ pub fn main(args: &[String]) -> i32 {
         let src = case["src"].as_str().unwrap_or("").to_string();
         let setup = case["setup"].as_str().unwrap_or("").to_string();
         let probe = case["probe"].as_str().unwrap_or("(+ 1 2)").to_string();
+        let wait_tick = case["wait_tick"].as_str().unwrap_or("").to_string();
         let oc = fork_run(timeout, 8192, 0, |chan, _| {
             if !setup.is_empty() {
                 let _ = engine.run(setup.clone());
@@ -41,7 +42,16 @@ pub fn main(args: &[String]) -> i32 {
             let sent2 = sent_at.clone();
             let c2 = controller.clone();
             let t0 = now_ms();
+            let wait_tick = wait_tick.clone();
             let h = std::thread::spawn(move || {
+                // with "wait_tick" the delay counts from the moment the program itself reports that it runs (so a slow
+                // compilation on a cold machine cannot turn the case into "request before the VM loop started")
+                if !wait_tick.is_empty() {
+                    let t1 = now_ms();
+                    while crate::hostfns::tick_count(&wait_tick) == 0 && now_ms() - t1 < 20_000 {
+                        std::thread::sleep(std::time::Duration::from_millis(1));
+                    }
+                }
                 std::thread::sleep(std::time::Duration::from_millis(delay));
                 sent2.store((now_ms() - t0) as u64, Ordering::SeqCst);
                 c2.interrupt();
